@@ -29,7 +29,7 @@ theorem SpecMono.trans {a b c : Job} (h1 : SpecMono a b) (h2 : SpecMono b c) : S
 `ok`), or — the call not having created anything — the pod CACHE entry of that name, controlled
 by this Job (adoption) -/
 def TaskOrigin (s s1 : Sys) (jo : JobObj) (c : Call) (t : Task) : Prop :=
-  ∃ p : PodObj, podTask p = some t ∧ p.pod.name = c.name ∧ p.ownerUid = some jo.uid ∧
+  ∃ p : PodObj, podTask s.clock p = some t ∧ p.pod.name = c.name ∧ p.ownerUid = some jo.uid ∧
     ((c.out = "ok" ∧ s1.pods = s.pods ++ [p] ∧ findPod s.pods c.name = none) ∨
      (c.out ≠ "ok" ∧ s1.pods = s.pods ∧ findPod s.podCache c.name = some p))
 
@@ -57,7 +57,7 @@ theorem syncCreateTask_ext (s : Sys) (jo : JobObj) (rj : Job) (tasks : List Task
     obtain ⟨hfind, p0, hpods, hpn, hou, _, _, _, _, _, _, huniq⟩ := hokp hcok
     have hp : p = p0 := huniq p rfl
     subst hp
-    cases hpt : podTask p with
+    cases hpt : podTask s.clock p with
     | none => rw [hpt] at h; cases h
     | some t =>
       rw [hpt] at h
@@ -85,7 +85,7 @@ theorem syncCreateTask_ext (s : Sys) (jo : JobObj) (rj : Job) (tasks : List Task
       · rw [if_pos hown]
         refine ⟨c, hext, hv, hr, hn, hf, hq, hnok, ?_⟩
         intro rj' tasks' h
-        cases hpt : podTask p with
+        cases hpt : podTask s.clock p with
         | none => rw [hpt] at h; cases h
         | some t =>
           rw [hpt] at h
@@ -332,7 +332,7 @@ theorem mem_sortPods (x : PodObj) (l : List PodObj) : x ∈ sortPods l ↔ x ∈
 with and controlled by this Job's uid whose name is not yet in the list -/
 theorem mem_adoptUnrecordedTasks (s : Sys) (jo : JobObj) (tasks : List Task) (t : Task) :
     t ∈ adoptUnrecordedTasks s jo tasks ↔
-      t ∈ tasks ∨ ∃ p ∈ s.podCache, podTask p = some t ∧ p.jobLabel = some jo.uid ∧ p.ownerUid = some jo.uid ∧
+      t ∈ tasks ∨ ∃ p ∈ s.podCache, podTask s.clock p = some t ∧ p.jobLabel = some jo.uid ∧ p.ownerUid = some jo.uid ∧
         (∀ t0 ∈ tasks, t0.name ≠ p.pod.name) ∧ (∀ r ∈ jo.job.status.tasks, r.name ≠ p.pod.name) := by
   unfold adoptUnrecordedTasks
   simp only [List.mem_append, List.mem_filterMap, List.mem_filter, mem_sortPods, Bool.and_eq_true,
@@ -347,7 +347,7 @@ theorem mem_adoptUnrecordedTasks (s : Sys) (jo : JobObj) (tasks : List Task) (t 
     · exact Or.inr ⟨p, ⟨hp, ⟨⟨h1, fun t0 ht0 => by simpa using h2 t0 ht0⟩,
         fun r hr => by simpa using h2' r hr⟩, h3⟩, hpt⟩
 
-theorem podTask_name {p : PodObj} {t : Task} (h : podTask p = some t) : t.name = p.pod.name := by
+theorem podTask_name {now : Time} {p : PodObj} {t : Task} (h : podTask now p = some t) : t.name = p.pod.name := by
   unfold podTask Pod.task at h
   split at h
   · cases h
@@ -409,7 +409,7 @@ and is neither found nor recorded -/
 theorem mem_finalizerTasks (s : Sys) (jo : JobObj) (rj : Job) (t : Task) :
     t ∈ finalizerTasks s jo rj ↔
       t ∈ tasksForRefsConfirmed s jo rj.status.tasks ∨
-      ∃ p ∈ s.podCache, podTask p = some t ∧ p.jobLabel = some jo.uid ∧ p.ownerUid = some jo.uid ∧
+      ∃ p ∈ s.podCache, podTask s.clock p = some t ∧ p.jobLabel = some jo.uid ∧ p.ownerUid = some jo.uid ∧
         (∀ t' ∈ tasksForRefsConfirmed s jo rj.status.tasks, t'.name ≠ p.pod.name) ∧
         (∀ r ∈ rj.status.tasks, r.name ≠ p.pod.name) := by
   unfold finalizerTasks
@@ -593,9 +593,9 @@ theorem syncCreateTasks_ext (s : Sys) (jo : JobObj) (rj : Job) (tasks : List Tas
 the Job (the pod a create call of the pass just made, or an adopted pod of the pod cache) -/
 theorem syncCreateTasks_members (s : Sys) (jo : JobObj) (rj : Job) (tasks : List Task) (s1 : Sys) (rj1 : Job)
     (tasks1 : List Task) (h : syncCreateTasks s jo rj tasks = (s1, some (rj1, tasks1))) :
-    ∀ t ∈ tasks1, t ∈ tasks ∨ ∃ p, podTask p = some t ∧ p.ownerUid = some jo.uid := by
+    ∀ t ∈ tasks1, t ∈ tasks ∨ ∃ p, podTask s.clock p = some t ∧ p.ownerUid = some jo.uid := by
   obtain ⟨l, _, hoff, hdone, _, hres⟩ := syncCreateTasks_ext s jo rj tasks
-  have adopt : ∀ t ∈ adoptUnrecordedTasks s jo tasks, t ∈ tasks ∨ ∃ p, podTask p = some t ∧ p.ownerUid = some jo.uid := by
+  have adopt : ∀ t ∈ adoptUnrecordedTasks s jo tasks, t ∈ tasks ∨ ∃ p, podTask s.clock p = some t ∧ p.ownerUid = some jo.uid := by
     intro t ht
     rcases (mem_adoptUnrecordedTasks s jo tasks t).mp ht with h' | ⟨p, _, hpt, _, ho, _⟩
     · exact Or.inl h'
@@ -618,8 +618,8 @@ theorem syncCreateTasks_members (s : Sys) (jo : JobObj) (rj : Job) (tasks : List
         rw [hex] at ht
         rcases List.mem_append.mp ht with h' | h'
         · exact Or.inl h'
-        · obtain ⟨c, _, s0, s1'', _, _, p, hpt, _, ho, _⟩ := hor t h'
-          exact Or.inr ⟨p, hpt, ho⟩
+        · obtain ⟨c, _, s0, s1'', ⟨_, h0⟩, _, p, hpt, _, ho, _⟩ := hor t h'
+          exact Or.inr ⟨p, h0.clock ▸ hpt, ho⟩
   · have hcf : canCreateTask rj = false := by simpa using hcan
     rw [hoff hcf] at h
     simp only [Prod.mk.injEq, Option.some.injEq] at h
